@@ -482,11 +482,17 @@ func (vm *Type) Run(retResult bool) (value.Type, error) {
 			m = ctxp.m
 			ip = ctxp.ip
 
+			// a resumed context continues after its YIELD, whose value is expected in tmp
+			tmp = m.Pop()
+
 		case bytecode.YIELD:
 			tmp = vm.fetch(instr.Src0(), instr.Src0Addr(), m, ds)
 
 			// otherwise naked yield, in the master context
 			if ctxp.parent != nil {
+				// tmp is shared by all contexts, keep the yielded value for the resume
+				m.Push(tmp)
+
 				ctxp.m = m
 				ctxp.ip = ip
 
